@@ -32,7 +32,7 @@ class FnSpec:
         self.hints = []
         self.closures = {}
         self.ret = "res"
-        self.attrs = []
+        self.attrs = ['#[verifier::loop_isolation(false)]']
         self.opts = {}
         self.rename = None
         self.decreases = None
@@ -123,8 +123,13 @@ class Unit:
         return self.srcs[rel]
 
     # ---- generation -----------------------------------------------------
+    def next_canary(self):
+        self._canary_n += 1
+        return f"assert(vx_canary_{self._canary_n}());"
+
     def build(self, canary=False):
         chunks = []
+        self._canary_n = 0
         chunks.append(Chunk(rules.FILE_HEADER, ("gen", "header")))
         for p in self.preludes:
             text = open(os.path.join(VERIF, "prelude", p + ".rs")).read()
@@ -141,6 +146,11 @@ class Unit:
             elif b[0] == "item":
                 chunks += self.emit_item(*b[1:])
                 chunks.append(Chunk("\n\n", ("gen", "sep")))
+        if canary:
+            # distinct uninterpreted booleans: a reachable canary cannot be proved, and assuming it
+            # afterwards does not make later canaries vacuous
+            decl = "".join(f"pub uninterp spec fn vx_canary_{i}() -> bool;\n" for i in range(1, self._canary_n + 1))
+            chunks.append(Chunk(decl, ("gen", "canary-decl")))
         chunks.append(Chunk(rules.FILE_FOOTER, ("gen", "footer")))
         text, spans, pos = [], [], 0
         for c in chunks:
@@ -305,7 +315,7 @@ class Unit:
                 for c in ch:
                     rw.insert(lp["body_open"], c.text, "contract", c.origin)
             if canary:
-                rw.insert_after(lp["body_open"], " assert(false); ", "canary", ("canary", f.key, f"loop#{n}"))
+                rw.insert_after(lp["body_open"], " " + self.next_canary() + " ", "canary", ("canary", f.key, f"loop#{n}"))
         # closures
         cls = find_closures(src, body_open + 1, body_close)
         f.n_closures = len(cls)
@@ -347,7 +357,7 @@ class Unit:
         # body start
         first = ""
         if canary:
-            first += " assert(false); "
+            first += " " + self.next_canary() + " "
         if pre_body:
             first += "\n    " + "\n    ".join(pre_body)
         if first:
